@@ -46,6 +46,13 @@ CHECKS = {
    note="exhaustive: true is claimed only for the enumerated phase (fixed alphabet, fixed depth), recorded per phase in the evidence; the run as a whole is exploration. Spurious wake-ups are allowed. Sender operations after the body was closed only have to be safe. Trusts the 60-line reference model in harness/src/props/c07.rs.",
    technique="stateful model-based property testing: small-scope exhaustive enumeration of operation sequences + proptest random sequences against a reference model",
    design_ref="DESIGN.md §5 C07"),
+ "C10": dict(
+   engine="pbt",
+   category="exploration",
+   text="Patterns generated from a grammar (static text, {name}, {name:regex} with regexes \\d+ [ab]+ [^/]* a|bb .+ (a|b)+ v(\\d)? — the last two with their own capture groups —, optional {tail}*, single or list of 2-3, new or prefix) come with a reference AST; a small backtracking matcher written in the harness (leftmost, greedy, ordered alternation, anchored, ending $ / (/|$) / none for tails) gives the expected matched length and capture spans. For every (definition, path): is_match == find_match.is_some() == capture_match_info; matched length and Path::unprocessed() equal the model's; prefix matches end at a segment boundary; every captured value is exactly the substring that matched (by name and by iteration); the path rebuilt with resource_path_from_iter from the captured values equals the matched part, matches again and yields the values back. Paths: ALL strings over /ab1-v. up to length 6 (quick; 7 thorough) for 160-400 definitions (exhaustive per definition), paths derived from the pattern's own language with 9 perturbations, and paths up to the 65 534-byte URL limit with captures beyond offset 65 000. Quoter: ALL strings over %2Ff541G/ up to length 7 for three protected sets (exhaustive) plus random bytes, against a reference partial decoder.",
+   note="exhaustive: true is per phase (fixed alphabet and length, per sampled definition), recorded in the evidence phases; the definitions themselves are sampled. Only menu regexes are used so the reference matcher is exact; documented-meaningless patterns are not generated. Trusts the ~80-line reference matcher and reference decoder in harness/src/props/c10.rs.",
+   technique="differential property testing against a reference matcher/decoder: small-alphabet exhaustive enumeration of paths and escape strings + proptest-generated patterns and long paths; round-trip (build then match)",
+   design_ref="DESIGN.md §5 C10"),
  "C01": dict(
    engine="simnet",
    category="exploration",
